@@ -417,6 +417,10 @@ wrapint wrapint::sext(bitwidth_t bits_to_add) const {
     CRAB_ERROR("cannot signed extend: ", new_width,
                " is a too big bitwidth for a wrapint");
   }
+  if (bits_to_add == 0) {
+    // avoid a shift by 64 if _width is 64
+    return *this;
+  }
 
   if (msb()) {
     // -- fill upper bits with ones
@@ -445,7 +449,8 @@ wrapint wrapint::zext(bitwidth_t bits_to_add) const {
 wrapint wrapint::keep_lower(bitwidth_t bits_to_keep) const {
   if (bits_to_keep >= _width)
     return *this;
-  return wrapint(_n & (((uint64_t)1 << (uint64_t)(bits_to_keep + 1)) - 1),
+  // bits_to_keep < _width <= 64 so the shift is well defined
+  return wrapint(_n & (((uint64_t)1 << (uint64_t)bits_to_keep) - 1),
                  bits_to_keep);
 }
 
